@@ -18,6 +18,10 @@ def design(ctx: Ctx) -> None:
     ctx.notes["design_dropping_asserted_bindings_violates"] = sorted({v.name for v in r.violations})
     if not r.violations:
         raise MachineryError("Pipeline_prefix.cfg should violate KeepAsserts")
+    r = ctx.design("Pipeline", "Pipeline_carriers.cfg", expect_ok=False)
+    ctx.notes["design_minimisation_not_protecting_carriers_violates"] = sorted({v.name for v in r.violations})
+    if not r.violations:
+        raise MachineryError("Pipeline_carriers.cfg should violate KeepAsserts/MinKeeps")
     if not ctx.quick:
         ctx.design("Pipeline", "Pipeline_noxfail.cfg")
 
@@ -225,6 +229,9 @@ def replay_progs(ctx: Ctx, prop: str, clauses: set[str]) -> int:
     """TLC-enumerated test cases through the real assertion generation, `generator._minimize` (every
     strategy and direction) and export; PipelineTrace clauses on what comes out."""
     cases = replay_cases(ctx)
+    if prop == "C18":
+        # assertions filtered irregularly, as the mutation-analysis based generation does
+        cases = cases + [dict(c, mask=m) for c in cases for m in ("odd", "even")]
     if prop == "C22":
         # also without assertion generation (assertion_generation NONE): statements that carry
         # assertions are protected, so only then does minimisation remove calls freely
@@ -235,9 +242,7 @@ def replay_progs(ctx: Ctx, prop: str, clauses: set[str]) -> int:
     for c, r in zip(cases, results):
         by_cfg: dict[str, list] = {}
         for e in r["ev"]:
-            if prop == "C19" and e["ev"] != "Asserted":
-                continue
-            if prop == "C22" and e["ev"] != "Minimize":
+            if e["ev"] != {"C19": "Asserted", "C22": "Minimize", "C18": "Test"}[prop]:
                 continue
             by_cfg.setdefault(e["cfg"], []).append(e)
         for cfg, evs in by_cfg.items():
@@ -252,7 +257,11 @@ def replay_progs(ctx: Ctx, prop: str, clauses: set[str]) -> int:
                 continue
             ev = traces[idx]["ev"][step - 1]
             strategy = cfg.split("/")[0]
-            if ev["ev"] == "Asserted":
+            if ev["ev"] == "Test":
+                kind = f"replay/{ev['outcome'].split(':')[0]}"
+                detail = (f"suite {json.dumps(c['tests'])} (assertions kept on {c.get('mask') or 'all'} statements) minimised "
+                          f"with {cfg}: exported {ev['name']} -> {ev['outcome']} (xfail-marked={ev['xfail_marked']})")
+            elif ev["ev"] == "Asserted":
                 kind = "whole-test-removed" if ev["test_removed"] else \
                     ("replay/own-variable" if ev["own"] else "replay/state-of-another-object")
                 detail = (f"suite {json.dumps(c['tests'])} minimised with {cfg}: `{ev['code']}` of test {ev['test']} carried "
@@ -279,7 +288,7 @@ def replay_one(ctx: Ctx, rec: dict, prop: str, clauses: set[str]) -> int:
 
     beh = rec["behaviour"]
     r = _replay_case((beh["replay"], str(ctx.work / "pp")))
-    evs = [e for e in r["ev"] if e["cfg"] == beh["cfg"] and e["ev"] == ("Asserted" if prop == "C19" else "Minimize")]
+    evs = [e for e in r["ev"] if e["cfg"] == beh["cfg"] and e["ev"] == {"C19": "Asserted", "C22": "Minimize", "C18": "Test"}[prop]]
     print(json.dumps(r["baseline"], indent=1)[:2000])
     print(json.dumps(evs, indent=1)[:3000])
     v = ctx.validate("PipelineTrace", [{"ev": evs}])
